@@ -245,10 +245,12 @@ def requiredShape : Shape :=
 
 /-- how `executeFunction` experiences the harness's error values -/
 def errKind : Val → ErrKind
-  | .foreign _ "en" => .errorPanics
-  | .foreign _ "eb" => .errorPanics
-  | .foreign _ "er" => .runtimeError
-  | .foreign _ "ez" => .nilRuntimeError
+  | .foreign _ c =>
+    if c = "en" || c = "eb" then .errorPanics
+    else if c = "er" then .runtimeError
+    else if c.startsWith "ez" then .nilRuntimeError        -- ez: nil pointer; ezd: non-nil *RuntimeErrorWithDetail with nil embedded pointer
+    else if c.startsWith "et" then .runtimeErrorNoType     -- et / etd: a runtime error whose Type is nil
+    else .plain
   | _ => .plain
 
 def runCase (payload : String) : String :=
@@ -293,37 +295,57 @@ def runCase (payload : String) : String :=
       match tgt? with
       | none => "bad-body"
       | some tgt =>
-        let out := run requiredShape oob tgt args
-        let reached := if bodyS = "notfunc" then none else reaches oob sig args
-        let recv := if bodyS = "opaque" && reached.isSome then "recv=?"
-          else match reached with
-            | none => "recv=-"
-            | some l => "recv=[" ++ ";".intercalate (zipM marked l) ++ "]"
         let showRet := fun (r : Ret) => match r with
           | .one v => showM (maskRes.headD false) v
           | .many vs => "l[" ++ ",".intercalate (zipM maskRes vs) ++ "]"
-        let nt := if reached.isSome then "\tnt=1" else ""
         let opaqueV := bodyS = "opaque"
-        -- `tr` is applied to what Run returned before it is printed: `id` = the code as it is (model);
-        -- `demandedResult` = what the property demands of nested results (known finding nested-result-numbers)
-        let line := fun (tr : Ret → Ret) =>
-          if mode = "D" then
-            match out with
-            | .escaped => "X"
-            | .done r none => "V " ++ (if opaqueV then "?" else showRet (tr r)) ++ " " ++ recv
-            | .done _ (some (.func _)) => "E f " ++ recv
-            | .done _ (some _) => "E b " ++ recv
-          else
-            match executeFunction true errKind out with
-            | .crash => "X"
-            | .value r => "V " ++ (if opaqueV then "?" else showRet (tr r)) ++ " " ++ recv
-            | .runtimeError => (if mode = "T" then "C " else "E ") ++ recv
+        -- the result line for an argument vector; `tr` is applied to what Run returned before it is printed:
+        -- `id` = the code as it is (model); `demandedResult` = what the property demands of nested results
+        let lineFor := fun (args : List Val) (tr : Ret → Ret) =>
+          let out := run requiredShape oob tgt args
+          let reached := if bodyS = "notfunc" then none else reaches oob sig args
+          let recv := if bodyS = "opaque" && reached.isSome then "recv=?"
+            else match reached with
+              | none => "recv=-"
+              | some l => "recv=[" ++ ";".intercalate (zipM marked l) ++ "]"
+          let txt :=
+            if mode = "D" then
+              match out with
+              | .escaped => "X"
+              | .done r none => "V " ++ (if opaqueV then "?" else showRet (tr r)) ++ " " ++ recv
+              | .done _ (some (.func _)) => "E f " ++ recv
+              | .done _ (some _) => "E b " ++ recv
+            else if mode = "T" then
+              match tryExcept (executeFunction true errKind out) with
+              | .crash => "X"
+              | .value r => "V " ++ (if opaqueV then "?" else showRet (tr r)) ++ " " ++ recv
+              | .handled => "C " ++ recv
+            else
+              match executeFunction true errKind out with
+              | .crash => "X"
+              | .value r => "V " ++ (if opaqueV then "?" else showRet (tr r)) ++ " " ++ recv
+              | .runtimeError => "E " ++ recv
+              | .brokenRuntimeError => "E " ++ recv
+          (txt, reached.isSome)
         let demand : Ret → Ret := fun r => match r with
           | .one v => .one (demandedResult .iface v)
           | .many vs => .many (vs.map (demandedResult .iface))
-        let res := line id
-        let spec := line demand
-        let res := if spec = res then res else res ++ "\tkf=nested-result-numbers\tspec=" ++ spec
+        let (res, reachedB) := lineFor args id
+        let nt := if reachedB then "\tnt=1" else ""
+        let spec := (lineFor args demand).1
+        -- A number for a parameter of a DEFINED numeric type (time.Duration …) is rejected by the code
+        -- (`named_numeric_param_rejects_numbers`); the property permits that answer and the obvious repair
+        -- alike, so the line of a bridge that converts to the defined type is accepted as well (spec=).
+        let argsAlt := (args.zip (sig.params.map some ++ List.replicate args.length none)).map fun (v, p) =>
+          match v, p with
+          | .f64 x, some (.named id u) =>
+            if (kindTy u).isNumeric && numberFits x u then Val.named id (convertNumber oob x u) else v
+          | v, _ => v
+        let alt := (lineFor argsAlt id).1
+        let res :=
+          if spec != res then res ++ "\tkf=nested-result-numbers\tspec=" ++ spec
+          else if alt != res then res ++ "\tspec=" ++ alt
+          else res
         res ++ nt
     | _, _ => "bad-payload"
   | _ => "bad-payload"
